@@ -152,6 +152,7 @@ void profile_mesh(const json& plan, Ctx& ctx) {
 		return true;
 	};
 	std::map<size_t, ShapeSnap> blindWant; // model state of shapes after deletions nobody has observed yet
+	bool unobservedOps = false;            // partition operations since the last observation
 	PartFlags pf; // C10: per shape, were partitions rebuilt (UpdateSkinPartitions) since the last edit touching them
 	int stepNo = 0;
 	for (auto& st : plan["steps"]) {
@@ -168,7 +169,12 @@ void profile_mesh(const json& plan, Ctx& ctx) {
 			for (auto& kv : pf.trianglesChanged)
 				if (kv.second) { kv.second = false; pf.coverInvalid[kv.first] = true; } // anything but a rebuild on stale partitions: no claim afterwards
 		if (op != "Restart" && op != "SetPartitions") partExpect.erase(sidx);
-		if (op != "Restart" && !(op == "DeleteVerts" && jbool(st, "blind", false))) blindWant.clear(); // observed from here on // any other operation on the shape ends the "set, save, reload" episode
+		if (op != "Restart" && !(op == "DeleteVerts" && jbool(st, "blind", false))) blindWant.clear(); // observed from here on
+		// unobserved partition operations: their own checks (which call getters that rebuild caches) are left out; the
+		// invariants are checked on the model reloaded by the restart that follows
+		const bool blindOp = op != "Restart" && op != "DeleteVerts" && jbool(st, "blind", false);
+		if (blindOp) { unobservedOps = true; ctx.probe("partition_operation_not_observed_before_save"); }
+		else if (op != "Restart") unobservedOps = false; // any other operation on the shape ends the "set, save, reload" episode
 
 		if (op == "DeleteVerts") {
 			if (!shape || shape->GetNumVertices() == 0) { stepNo++; continue; }
@@ -223,7 +229,7 @@ void profile_mesh(const json& plan, Ctx& ctx) {
 			checkAll(w, where, false, &pf);
 			if (prop_is(ctx, "C17")) checkSegExpect(w, segx, where);
 		}
-		else if (op == "Restart" && !blindWant.empty()) {
+		else if (op == "Restart" && (!blindWant.empty() || unobservedOps)) {
 			// the save follows an unobserved deletion: no query before it
 			SaveSpec sp;
 			sp.raw = jstr(st, "save", "raw") == "raw";
@@ -255,9 +261,11 @@ void profile_mesh(const json& plan, Ctx& ctx) {
 				}
 			}
 			blindWant.clear();
-			for (size_t k = 0; k < rs.size(); k++) pf.coverInvalid[k] = true;
-			checkAll(w, where + " (reloaded)", false, &pf, true);
+			unobservedOps = false;
+			checkAll(w, where + " (reloaded)", true, &pf, true);
 			if (prop_is(ctx, "C17")) checkSegExpect(w, segx, where + " (reloaded)");
+			for (size_t k = 0; k < rs.size(); k++)
+				if (!pf.rebuilt(k)) pf.coverInvalid[k] = true; // stored without a rebuild: partitions are whatever the writer left
 		}
 		else if (op == "Restart") {
 			bool raw = jstr(st, "save", "raw") == "raw";
@@ -363,8 +371,8 @@ void profile_mesh(const json& plan, Ctx& ctx) {
 			pf.coverInvalid[sidx] = false;
 			pf.notRebuilt[sidx] = true;
 			shape = w.nif->GetShapes()[sidx];
-			if (prop_is(ctx, "C10")) checkPartitions(*w.nif, shape, ctx, where, false);
-			if (prop_is(ctx, "C17")) {
+			if (!blindOp && prop_is(ctx, "C10")) checkPartitions(*w.nif, shape, ctx, where, false);
+			if (prop_is(ctx, "C17") && !blindOp) {
 				// labels read back: same labelling (unassigned -1 -> one extra partition)
 				NiVector<BSDismemberSkinInstance::PartitionInfo> pi2;
 				std::vector<int> tp;
@@ -430,7 +438,7 @@ void profile_mesh(const json& plan, Ctx& ctx) {
 				ctx.probe("rebuilt_after_triangles_were_replaced");
 			}
 			if (pf.cover(sidx)) pf.notRebuilt[sidx] = false;
-			if (prop_is(ctx, "C10") && pf.cover(sidx)) checkPartitions(*w.nif, shape, ctx, where, true);
+			if (!blindOp && prop_is(ctx, "C10") && pf.cover(sidx)) checkPartitions(*w.nif, shape, ctx, where, true);
 		}
 		else if (op == "SetDefaultPartition") {
 			if (!shape || !shape->SkinInstanceRef() || shape->SkinInstanceRef()->IsEmpty()) { stepNo++; continue; }
@@ -438,7 +446,7 @@ void profile_mesh(const json& plan, Ctx& ctx) {
 			ctx.sig.tag("default");
 			pf.coverInvalid[sidx] = false;
 			pf.notRebuilt[sidx] = true;
-			if (prop_is(ctx, "C10")) checkPartitions(*w.nif, shape, ctx, where, false);
+			if (!blindOp && prop_is(ctx, "C10")) checkPartitions(*w.nif, shape, ctx, where, false);
 		}
 		else if (op == "DeletePartitions") {
 			if (!shape) { stepNo++; continue; }
@@ -459,7 +467,7 @@ void profile_mesh(const json& plan, Ctx& ctx) {
 			shape = w.nif->GetShapes()[sidx];
 			pf.coverInvalid[sidx] = false;
 			pf.notRebuilt[sidx] = true;
-			if (prop_is(ctx, "C10")) checkPartitions(*w.nif, shape, ctx, where, false);
+			if (!blindOp && prop_is(ctx, "C10")) checkPartitions(*w.nif, shape, ctx, where, false);
 		}
 		else if (op == "RemoveEmptyPartitions") {
 			if (!shape) { stepNo++; continue; }
@@ -471,7 +479,7 @@ void profile_mesh(const json& plan, Ctx& ctx) {
 				if (auto sp = w.nif->GetHeader().GetBlock(si->skinPartitionRef))
 					if (sp->partitions.size() < beforeN) ctx.probe("partition_emptied_and_removed");
 			ctx.sig.tag("rmempty");
-			if (prop_is(ctx, "C10") && pf.cover(sidx)) checkPartitions(*w.nif, shape, ctx, where, false);
+			if (!blindOp && prop_is(ctx, "C10") && pf.cover(sidx)) checkPartitions(*w.nif, shape, ctx, where, false);
 		}
 		else if (op == "SetSegments") {
 			auto sits = dynamic_cast<BSSubIndexTriShape*>(shape);
